@@ -7,6 +7,12 @@ from contracts.proxy_harness import Harness
 BEHAVIOURS = ["falsy", "truthy", "raise", "take", "take_drop", "drop", "send_orig", "send_copy", "mutate", "take_send_orig"]
 
 
+# message kinds driven through the proxy: a chat message, a datagram whose body does not parse (it is still forwarded
+# verbatim), and the circuit teardown messages (the proxy marks the circuit dead before forwarding them)
+KINDS = ("chat", "truncated", "teardown")
+TARGETS = {"ChatFromViewer", "ChatFromSimulator", "UndoLand", "HealthMessage", "CloseCircuit", "DisableSimulator"}
+
+
 class Boom(Exception):
     pass
 
@@ -16,7 +22,7 @@ def make_addon(behaviour, hook_points, log):
 
     class A(BaseAddon):
         def handle_lludp_message(self, session, region, message):
-            if "lludp" not in hook_points or not message.name.startswith("ChatFrom"):
+            if "lludp" not in hook_points or message.name not in TARGETS:
                 return None
             log.append(("hook", behaviour))
             return act(behaviour, session, region, message)
@@ -55,7 +61,7 @@ def make_addon(behaviour, hook_points, log):
     return a
 
 
-def one_case(behaviours, outgoing, reliable, handler_raises):
+def one_case(behaviours, outgoing, reliable, handler_raises, kind="chat"):
     """returns list of violation strings"""
     from hippolyzer.lib.base.message.message import Message, Block
     from hippolyzer.lib.base.message.msgtypes import PacketFlags
@@ -90,7 +96,18 @@ def one_case(behaviours, outgoing, reliable, handler_raises):
             msg = Message("ChatFromSimulator", Block("ChatData", FromName="x", SourceID=h.session.agent_id, OwnerID=h.session.agent_id,
                                                      SourceType=1, ChatType=1, Audible=1, Position=(0, 0, 0), Message="hello"),
                           packet_id=7, flags=flags, direction=Direction.IN)
+        if kind == "truncated":
+            if outgoing:
+                msg = Message("UndoLand", Block("AgentData", AgentID=h.session.agent_id, SessionID=h.session.id), packet_id=7, flags=flags,
+                              direction=Direction.OUT)
+            else:
+                msg = Message("HealthMessage", Block("HealthData", Health=1.0), packet_id=7, flags=flags, direction=Direction.IN)
+        elif kind == "teardown":
+            msg = Message("CloseCircuit" if outgoing else "DisableSimulator", packet_id=7, flags=flags,
+                          direction=Direction.OUT if outgoing else Direction.IN)
         data, src = h.datagram(msg)
+        if kind == "truncated":
+            data = data[:-3]                # header and message number intact, the body is short
         exc, sent = h.feed(data, src)
         # a second, unrelated message must still flow (one failure never stops later messages)
         msg2 = Message("CompletePingCheck", Block("PingID", PingID=3), packet_id=8,
@@ -103,7 +120,7 @@ def one_case(behaviours, outgoing, reliable, handler_raises):
             m = de.deserialize(pkt.data)
             names.append((m.name, dst))
         peer = h.region_addrs[0] if outgoing else h.client_addr
-        chat = "ChatFromViewer" if outgoing else "ChatFromSimulator"
+        chat = msg.name
         n_chat = sum(1 for n, d in names if n == chat and d == peer)
         # reference model of the ownership protocol (what the statement prescribes)
         fin = queued = False
@@ -132,16 +149,20 @@ def one_case(behaviours, outgoing, reliable, handler_raises):
         if not handled and not fin:
             wire += 1
         claimed = wire == 0
-        desc = f"behaviours={behaviours} outgoing={outgoing} reliable={reliable} handler_raises={handler_raises}"
+        desc = f"kind={kind} behaviours={behaviours} outgoing={outgoing} reliable={reliable} handler_raises={handler_raises}"
         if exc is not None:
             out.append(f"exception {type(exc).__name__}: {exc} escaped the packet handler ({desc})")
-        if exc2 is not None or not any(de.deserialize(p.data).name == "CompletePingCheck" for _, _, p in sent2):
+        if kind == "teardown":
+            # nothing follows a teardown on that circuit; the message log holds the one entry
+            if len(h.logged) < 1:
+                out.append(f"proxy bookkeeping (message log) skipped: {len(h.logged)} of 1 entries ({desc})")
+        elif exc2 is not None or not any(de.deserialize(p.data).name == "CompletePingCheck" for _, _, p in sent2):
             out.append(f"a later unrelated message was not forwarded ({desc})")
         if n_chat != wire:
             out.append(f"message put on the wire {n_chat} times, the ownership protocol prescribes {wire} ({desc})")
-        if len(h.logged) < 2:
+        if kind != "teardown" and len(h.logged) < 2:
             out.append(f"proxy bookkeeping (message log) skipped: {len(h.logged)} of 2 entries ({desc})")
-        if handler_raises in ("session", "session_pred") and not seen_region:
+        if kind == "chat" and handler_raises in ("session", "session_pred") and not seen_region:
             out.append(f"session-level subscriber failure stopped region-level subscribers ({desc})")
         hooks_run = sum(1 for x in log if x[0] == "hook")
         expect_hooks = 0
@@ -207,20 +228,24 @@ def bounded_addons(reg, tier, seed):
         rng.shuffle(trip)
         combos += trip[:60]
     for bs in combos:
-        variants = list(itertools.product((True, False), (True, False), (None, "session", "region", "session_pred", "region_pred")))
+        variants = list(itertools.product((True, False), (True, False), (None, "session", "region", "session_pred", "region_pred"), ("chat",)))
+        other = list(itertools.product((True, False), (True, False), (None, "region"), ("truncated", "teardown")))
         if tier == "quick" and len(bs) > 1:
-            variants = [rng.choice(variants)]
-        for outgoing, reliable, hr in variants:
-            key = (bs, outgoing, reliable, hr)
+            variants = [rng.choice(variants), rng.choice(other)]
+        else:
+            variants += other
+        for outgoing, reliable, hr, kind in variants:
+            key = (bs, outgoing, reliable, hr, kind)
             seen.add(key)
             evals += 1
-            v = one_case(list(bs), outgoing, reliable, hr)
+            v = one_case(list(bs), outgoing, reliable, hr, kind)
             if len(samples) < 3:
-                samples.append({"behaviours": list(bs), "outgoing": outgoing, "reliable": reliable, "handler_raises": hr})
+                samples.append({"behaviours": list(bs), "outgoing": outgoing, "reliable": reliable, "handler_raises": hr, "kind": kind})
             for msg in v[:1]:
                 if len(failures) < 5:
-                    failures.append({"key": "addons/bounded", "clause": msg.split(" (")[0],
-                                     "input": {"behaviours": list(bs), "outgoing": outgoing, "reliable": reliable, "handler_raises": hr},
+                    failures.append({"key": "addons/bounded" if kind == "chat" else "addons/" + kind, "clause": msg.split(" (")[0],
+                                     "input": {"behaviours": list(bs), "outgoing": outgoing, "reliable": reliable, "handler_raises": hr,
+                                               "kind": kind},
                                      "observed": msg})
     n, ov = ownership_sequences(4)
     evals += n
@@ -229,5 +254,5 @@ def bounded_addons(reg, tier, seed):
     return {"name": "addon-behaviours", "evaluations": evals, "distinct_nontrivial": len(seen) + n,
             "rule": "assignments of {falsy, truthy, raise, take, take+drop, drop, send original, send copy, mutate, take+send original} to "
                     "the LLUDP hook of 1..3 real addon objects x direction x reliability x {no, session-level, region-level} raising "
-                    "subscriber, through the real proxy; plus all ownership-operation sequences up to length 4; distinct = distinct assignments",
+                    "subscriber x {chat message, datagram with an unparsable body, circuit teardown message}, through the real proxy; plus all ownership-operation sequences up to length 4; distinct = distinct assignments",
             "bounded": True, "bounds": {"addons": 3, "ownership_seq_len": 4}, "samples": samples, "failures": failures}
